@@ -150,6 +150,7 @@ func checkC19(c *km.Ctx) {
 
 	// ---------- R-C19-1
 	nSinks, nMarshal := 0, 0
+	var privPaths []ssa.Value
 	for _, fn := range clientFns {
 		for _, ci := range km.CallsIn(fn) {
 			n := km.CalleeFull(ci.Common())
@@ -190,6 +191,7 @@ func checkC19(c *km.Ctx) {
 				nMarshal++
 			}
 			if isWriteFile(n) && len(args) == 3 && derivesFromPrivateMarshal(args[1], 0, map[ssa.Value]bool{}) {
+				privPaths = append(privPaths, km.Unwrap(args[0]))
 				mode, ok := km.ConstInt(args[2])
 				r.Add("R-C19-1", km.FuncName(fn), "private key file", posOf(c, ci), "written with the constant mode 0600", sprintf("%#o const=%v", mode, ok), ok && mode == 0o600)
 				// no chmod of the same path to a wider mode
@@ -200,6 +202,105 @@ func checkC19(c *km.Ctx) {
 					}
 				}
 			}
+		}
+	}
+	// WriteFile applies its mode only when it creates the file: nothing else in the client may create a private-key
+	// path first with a wider mode (a "can I write there" probe before authentication, say)
+	{
+		samePath := func(a, b ssa.Value) bool {
+			a, b = km.Unwrap(a), km.Unwrap(b)
+			if a == b {
+				return true
+			}
+			x, okx := a.(*ssa.BinOp)
+			y, oky := b.(*ssa.BinOp)
+			if okx && oky && x.Op == token.ADD && y.Op == token.ADD && km.Unwrap(x.X) == km.Unwrap(y.X) {
+				sx, ok1 := km.ConstString(x.Y)
+				sy, ok2 := km.ConstString(y.Y)
+				return ok1 && ok2 && sx == sy
+			}
+			return false
+		}
+		// the values a file name can stand for: itself, or - when it is (an element of) a parameter - what the callers pass
+		var namesOf func(v ssa.Value, d int) []ssa.Value
+		namesOf = func(v ssa.Value, d int) []ssa.Value {
+			v = km.Unwrap(v)
+			out := []ssa.Value{v}
+			var par *ssa.Parameter
+			elem := false
+			if p, isP := v.(*ssa.Parameter); isP {
+				par = p
+			} else if u, isU := v.(*ssa.UnOp); isU && u.Op == token.MUL {
+				if ia, isIA := u.X.(*ssa.IndexAddr); isIA {
+					if p, isP := km.Unwrap(ia.X).(*ssa.Parameter); isP {
+						par, elem = p, true
+					}
+				}
+			}
+			if par == nil || d > 2 {
+				return out
+			}
+			g := par.Parent()
+			idx := -1
+			for i, q := range g.Params {
+				if q == par {
+					idx = i
+				}
+			}
+			for _, cs := range c.G.Callers[g] {
+				ci, isCI := cs.Instr.(ssa.CallInstruction)
+				if !isCI || idx < 0 || idx >= len(ci.Common().Args) {
+					continue
+				}
+				a := ci.Common().Args[idx]
+				if elem {
+					for _, e := range variadicVals(a) {
+						out = append(out, namesOf(e, d+1)...)
+					}
+				} else {
+					out = append(out, namesOf(a, d+1)...)
+				}
+			}
+			return out
+		}
+		nCreate := 0
+		for _, fn := range clientFns {
+			for _, ci := range km.CallsIn(fn) {
+				n := km.CalleeFull(ci.Common())
+				args := ci.Common().Args
+				var name ssa.Value
+				mode, modeOK := int64(0o666), true
+				switch {
+				case n == "os.OpenFile" && len(args) == 3:
+					if fl, isC := km.ConstInt(args[1]); isC && fl&0o100 == 0 {
+						continue // cannot create
+					}
+					name = args[0]
+					mode, modeOK = km.ConstInt(args[2])
+				case n == "os.Create" && len(args) == 1:
+					name = args[0]
+				case isWriteFile(n) && len(args) == 3:
+					name = args[0]
+					mode, modeOK = km.ConstInt(args[2])
+				default:
+					continue
+				}
+				nCreate++
+				hit := false
+				for _, nm := range namesOf(name, 0) {
+					for _, pp := range privPaths {
+						if samePath(nm, pp) {
+							hit = true
+						}
+					}
+				}
+				if hit {
+					r.Add("R-C19-1", km.FuncName(fn), "creation of a private-key path", posOf(c, ci), "every call that can create a file at a path a private key is written to uses the constant mode 0600", sprintf("%s mode %#o const=%v", short(n), mode, modeOK), modeOK && mode&0o077 == 0)
+				}
+			}
+		}
+		if nCreate == 0 {
+			r.AnchorLost("R-C19-1", "file-creating calls of the client packages")
 		}
 	}
 	r.Add("R-C19-1", "client packages", "outbound and log sinks scanned", "-", "every request/HTTP/multipart/header/logger/connection call of the client packages was inspected", sprintf("%d sinks, %d private-key marshal calls", nSinks, nMarshal), nSinks >= 40 && nMarshal >= 3)
@@ -322,6 +423,81 @@ func checkC19(c *km.Ctx) {
 		}
 		if n == 0 {
 			r.AnchorLost("R-C19-3", "agent Remove in deleteDuplicateEntries")
+		}
+		// ... and every certificate with that comment is removed: an entry is passed over only because it does not
+		// parse, is not a certificate, or carries another comment (a further condition - the issuer's key id, say -
+		// leaves certificates of the same label behind)
+		for _, g := range callsWithNewHelpersFuncs(c, fn, 2) {
+			var rm ssa.CallInstruction
+			for _, ci := range km.CallsIn(g) {
+				if ci.Common().IsInvoke() && ci.Common().Method.Name() == "Remove" {
+					rm = ci
+				}
+			}
+			if rm == nil {
+				continue
+			}
+			var hdr *ssa.BasicBlock
+			for b := rm.Block().Idom(); b != nil; b = b.Idom() {
+				if (b.Comment == "rangeindex.loop" || b.Comment == "rangeiter.loop") && len(b.Succs) == 2 && km.ReachableBlocks(rm.Block(), nil)[b] {
+					hdr = b
+					break
+				}
+			}
+			if hdr == nil {
+				r.AnchorLost("R-C19-3", "loop around the agent Remove")
+				continue
+			}
+			skipRegion := km.ReachableBlocks(hdr.Succs[0], map[*ssa.BasicBlock]bool{rm.Block(): true, hdr: true, hdr.Succs[1]: true})
+			allowed := func(f km.Fact) bool {
+				// the entry did not parse
+				if f.Op == token.NEQ && f.Y != nil && km.IsNilConst(f.Y) {
+					if cl, idx := callRes(f.X); cl != nil && idx > 0 && km.CalleeFull(cl.Common()) == "golang.org/x/crypto/ssh.ParsePublicKey" {
+						return true
+					}
+				}
+				// it is not a certificate
+				if f.Op == token.ILLEGAL && !f.Pol {
+					if ex, ok := f.X.(*ssa.Extract); ok && ex.Index == 1 {
+						if ta, ok := ex.Tuple.(*ssa.TypeAssert); ok && km.NamedTypeOf(ta.AssertedType) == "golang.org/x/crypto/ssh.Certificate" {
+							return true
+						}
+					}
+				}
+				// it carries another comment
+				if f.Op == token.NEQ && f.Y != nil {
+					_, xp := km.Unwrap(f.X).(*ssa.Parameter)
+					_, yp := km.Unwrap(f.Y).(*ssa.Parameter)
+					if (mentionsField(f.X, "Comment") && yp) || (mentionsField(f.Y, "Comment") && xp) {
+						return true
+					}
+				}
+				return false
+			}
+			bad := ""
+			nSkip := 0
+			for _, p := range hdr.Preds {
+				if !skipRegion[p] {
+					continue
+				}
+				for _, k := range c.F.OnEdge(p, hdr) {
+					nSkip++
+					ok := false
+					for _, f := range k.List() {
+						if allowed(f) {
+							ok = true
+						}
+					}
+					if !ok {
+						bad = clipS(km.DNF{k}.String(), 200)
+					}
+				}
+			}
+			found := sprintf("%d ways of passing over an entry, each for one of the three reasons", nSkip)
+			if bad != "" {
+				found = "an entry is passed over under " + bad
+			}
+			r.Add("R-C19-3", km.FuncName(g), "every certificate of the label is removed", posOf(c, rm), "an entry is passed over only when it does not parse, is not a certificate, or has another comment", found, bad == "" && nSkip > 0)
 		}
 		// every entry of the agent is looked at: the loop over the listed keys is left only at its end or with an
 		// error (a removal routine that stops at the first match leaves the other certificates of that label)
@@ -455,6 +631,90 @@ func checkC19(c *km.Ctx) {
 		r.Add("R-C19-4", km.FuncName(fn), "SSH key type enumeration covers every offered type", posOf(c, at), "a server-side enumeration of SSH key types that names two or more offered types names all of them", sprintf("missing=%v", missing), len(missing) == 0)
 	}
 	r.Add("R-C19-4", "client key generation", "RSA key size", "-", "constant >= 2048 bits (server requires Size() >= 256 bytes)", sprintf("%d", rsaBits), rsaBits >= 2048)
+	checkSSHSignerChoice(c, s)
+}
+
+// checkSSHSignerChoice: every key type the client offers gets a certificate from a server that has its primary CA:
+// the optional Ed25519 CA signs only ssh-ed25519 user keys (and its absence refuses only those); every other type
+// is signed by the primary signer.
+func checkSSHSignerChoice(c *km.Ctx, s *km.Sem) {
+	h := c.MustFunc("R-C19-4", "cmd/keymasterd", "(*RuntimeState).postAuthSSHCertHandler")
+	if h == nil {
+		return
+	}
+	isEdKey := km.Prim{Name: "user key is ssh-ed25519", Direct: func(f km.Fact) bool {
+		if f.Op != token.EQL || f.Y == nil {
+			return false
+		}
+		for _, pr := range [][2]ssa.Value{{f.X, f.Y}, {f.Y, f.X}} {
+			cl, ok := km.Unwrap(pr[0]).(*ssa.Call)
+			if !ok || !cl.Common().IsInvoke() || cl.Common().Method.Name() != "Type" {
+				continue
+			}
+			if cs, isC := km.ConstString(pr[1]); isC && cs == "ssh-ed25519" {
+				return true
+			}
+		}
+		return false
+	}}
+	n := 0
+	for _, f := range callsWithNewHelpersFuncs(c, h, 2) {
+		for _, ci := range km.CallsIn(f) {
+			if km.CalleeFull(ci.Common()) != "golang.org/x/crypto/ssh.NewSignerFromSigner" {
+				continue
+			}
+			n++
+			arg := ci.Common().Args[0]
+			bad := ""
+			nLeaves := 0
+			// a local choice (a variable assigned in the arms of a switch) is split by arm: each operand is judged
+			// under the facts of the edge it arrives on
+			type origin struct {
+				v  ssa.Value
+				ks km.DNF
+			}
+			var origins []origin
+			var split func(v ssa.Value, ks km.DNF, d int)
+			split = func(v ssa.Value, ks km.DNF, d int) {
+				if ph, isPhi := km.Unwrap(v).(*ssa.Phi); isPhi && d < 4 {
+					for i, e := range ph.Edges {
+						split(e, c.F.OnEdge(ph.Block().Preds[i], ph.Block()), d+1)
+					}
+					return
+				}
+				origins = append(origins, origin{v, ks})
+			}
+			split(arg, c.F.At(ci), 0)
+			for _, o := range origins {
+				for _, k := range o.ks {
+					for _, lf := range s.Leaves(k, f, nil, o.v, nil, 3) {
+						nLeaves++
+						v := km.Unwrap(lf.Val)
+						switch {
+						case fieldLoadOf(v, KMD+".RuntimeState", "Signer"):
+						case fieldLoadOf(v, KMD+".RuntimeState", "Ed25519Signer"):
+							if !s.Holds(lf.K, isEdKey) && !s.Holds(k, isEdKey) {
+								bad = "the Ed25519 CA is chosen for a key that is not known to be ssh-ed25519"
+							}
+						default:
+							bad = "signer of unknown origin: " + clipS(km.ValStr(v), 80)
+						}
+					}
+				}
+			}
+			if nLeaves == 0 {
+				bad = "origin of the signer not found"
+			}
+			found := sprintf("%d origin(s): the primary signer, or the Ed25519 CA under key type == ssh-ed25519", nLeaves)
+			if bad != "" {
+				found = bad
+			}
+			c.R.Add("R-C19-4", km.FuncName(f), "CA chosen for an SSH user key", posOf(c, ci), "the Ed25519 CA (which a deployment need not have) signs ssh-ed25519 keys only; every other offered type goes to the primary signer", found, bad == "")
+		}
+	}
+	if n == 0 {
+		c.R.AnchorLost("R-C19-4", "ssh.NewSignerFromSigner in the SSH certificate handler")
+	}
 }
 
 func contains(l []string, s string) bool {
